@@ -129,6 +129,9 @@ type wlMerge struct {
 	Cold      bool       `json:"cold,omitempty"`      // cold restart of the parser caches before the call
 	Warm      int        `json:"warm,omitempty"`      // unrelated parses before the call
 	Tasks     int        `json:"tasks,omitempty"`     // concurrent variant
+	// Scribble: the same list is merged once before, and the caller writes all
+	// over the model (or the error list) it got back.
+	Scribble bool `json:"scribble,omitempty"`
 }
 
 var (
